@@ -149,6 +149,10 @@ func catalogValue(h *histState) syntax.Value {
 		"PageLayout", syntax.N(fmt.Sprintf("L%d", h.marker())))
 }
 
+func pagesValue(h *histState) syntax.Value {
+	return syntax.D("Type", syntax.N("Pages"), "Kids", syntax.A(), "Count", syntax.I(0), "Marker", syntax.I(h.marker()))
+}
+
 func infoValue(h *histState) syntax.Value {
 	return syntax.D("Title", syntax.S([]byte(fmt.Sprintf("Title %d", h.marker()))))
 }
@@ -204,7 +208,17 @@ func genCase(t *rapid.T) Case {
 	for ri := 0; ri < nrev; ri++ {
 		kind := kinds[ri]
 		rev := serial.Revision{Kind: kind, Ops: map[uint32]serial.Op{}}
-		rev.Object0 = rapid.IntRange(0, 2).Draw(t, "object0")
+		rev.Object0 = rapid.IntRange(0, 3).Draw(t, "object0")
+		// lowRun: an update whose table lists objects 1, 2, 3, ... in one
+		// subsection which starts at 1 (object 0 absent or in a subsection
+		// "0 1" of its own), with objects freed for good (generation 65535,
+		// next-free 0) in the middle of it.
+		lowRun := ri > 0 && kind != serial.Stream && !h.dead[1] && rapid.IntRange(0, 5).Draw(t, "lowRun") == 0
+		lowTop := uint32(0)
+		if lowRun {
+			rev.Object0 = rapid.SampledFrom([]int{2, 3, 3}).Draw(t, "lowObject0")
+			lowTop = uint32(2 + rapid.IntRange(1, 4).Draw(t, "lowTop"))
+		}
 		special := map[uint32]bool{} // numbers this revision has dealt with already
 
 		define := func(n uint32, v syntax.Value, plain bool) {
@@ -229,9 +243,13 @@ func genCase(t *rapid.T) Case {
 			define(1, catalogValue(h), false)
 			define(2, syntax.D("Type", syntax.N("Pages"), "Kids", syntax.A(), "Count", syntax.I(0)), false)
 		} else {
-			switch rapid.IntRange(0, 7).Draw(t, "catalog") {
+			catSel := rapid.IntRange(0, 7).Draw(t, "catalog")
+			if lowRun && catalog == 1 {
+				catSel = 0
+			}
+			switch catSel {
 			case 0, 1:
-				define(catalog, catalogValue(h), false)
+				define(catalog, catalogValue(h), lowRun)
 			case 2:
 				// move the catalog to another object
 				var cand []uint32
@@ -246,6 +264,9 @@ func genCase(t *rapid.T) Case {
 					catalog = n
 				}
 			}
+		}
+		if ri > 0 && (lowRun || rapid.IntRange(0, 5).Draw(t, "pages") == 0) {
+			define(2, pagesValue(h), lowRun)
 		}
 		special[catalog] = true
 		special[2] = true
@@ -282,7 +303,17 @@ func genCase(t *rapid.T) Case {
 			if special[n] || h.dead[n] {
 				continue
 			}
-			switch rapid.IntRange(0, 5).Draw(t, "action") {
+			act := rapid.IntRange(0, 5).Draw(t, "action")
+			plain, forever := false, false
+			if lowRun && n <= lowTop {
+				plain = true
+				if n > 1 && h.inUse[n] && rapid.Bool().Draw(t, "lowFree") {
+					act, forever = 2, true
+				} else {
+					act = 0
+				}
+			}
+			switch act {
 			case 0, 1: // define
 				v := genValue(t, 3, h.maxNum)
 				// An indirect reference is not one of the eight object types
@@ -291,7 +322,7 @@ func genCase(t *rapid.T) Case {
 				if rapid.Bool().Draw(t, "wrap") || v.Kind == syntax.Ref {
 					v = syntax.A(syntax.I(h.marker()), v)
 				}
-				if rapid.IntRange(0, 3).Draw(t, "stream") == 0 {
+				if !plain && rapid.IntRange(0, 3).Draw(t, "stream") == 0 {
 					dict := syntax.D("Marker", syntax.I(h.marker()))
 					if v.Kind == syntax.Dict {
 						dict = v.With("Marker", syntax.I(h.marker())).Without("Length")
@@ -356,12 +387,12 @@ func genCase(t *rapid.T) Case {
 					rev.Ops[n] = op
 					h.inUse[n] = true
 				} else {
-					define(n, v, false)
+					define(n, v, plain)
 				}
 			case 2: // free
 				if h.inUse[n] {
 					ng := h.gens[n] + 1
-					if rapid.IntRange(0, 5).Draw(t, "forever") == 0 {
+					if forever || rapid.IntRange(0, 5).Draw(t, "forever") == 0 {
 						ng = 65535
 						h.dead[n] = true
 					}
